@@ -125,8 +125,121 @@ func showRecCalls(calls []recCall, args []reflect.Value) string {
 	return strings.Join(cs, "+")
 }
 
+// c12Nest: `ac|sel nest <Method> <r1> <r2> <outer policy> <inner policy>`. The wrapped registry of the
+// outer wrapper is the inner wrapper. The line is run three ways - stacked, the outer wrapper alone and
+// the inner wrapper alone, each over its own recording backend - and the stacked result has to be the
+// outer one's when the outer policy rejects (and then the inner policy function is never consulted),
+// the inner one's otherwise.
+func c12Nest(t []string) string {
+	r1, ok1 := untok(t[3])
+	r2, ok2 := untok(t[4])
+	if !ok1 || !ok2 || t[2] == "Repositories" {
+		return "bad-op"
+	}
+	type run struct {
+		out         string
+		innerAsked  int
+		backendHits int
+	}
+	do := func(outerPol, innerPol string) run {
+		b := newRecBackend()
+		var reg ociregistry.Interface = b.Funcs
+		asked := 0
+		var errOf []func(error) string
+		if innerPol != "" {
+			var pe func(error) string
+			if t[0] == "sel" {
+				allowed := map[string]bool{}
+				for _, x := range commaList(innerPol) {
+					allowed[x] = true
+				}
+				reg = ocifilter.Select(reg, func(name string) bool { asked++; return allowed[tok(name)] })
+				pe = func(err error) string {
+					switch err {
+					case ociregistry.ErrDenied:
+						return "DENIED"
+					case ociregistry.ErrNameUnknown:
+						return "NAME_UNKNOWN"
+					}
+					return ""
+				}
+			} else {
+				deny := map[string]*recErr{}
+				for _, c := range commaList(innerPol) {
+					deny[c] = &recErr{"inner policy " + c}
+				}
+				reg = ocifilter.AccessChecker(reg, func(name string, kind ocifilter.AccessKind) error {
+					asked++
+					if e, ok := deny[tok(name)+"."+kindLetter[kind]]; ok {
+						return e
+					}
+					return nil
+				})
+				pe = func(err error) string {
+					for c, e := range deny {
+						if err == error(e) {
+							return "inner:" + c
+						}
+					}
+					return ""
+				}
+			}
+			errOf = append(errOf, pe)
+		}
+		if outerPol != "" {
+			w, pe := c12Wrap(t[0], outerPol, reg)
+			reg = w
+			errOf = append(errOf, func(err error) string {
+				if c := pe(err); c != "" {
+					return "outer:" + c
+				}
+				return ""
+			})
+		}
+		m, args, ok := wrapperArgs(reg, t[2], context.Background(), r1, r2)
+		if !ok {
+			return run{out: "bad-op"}
+		}
+		res := m.Call(args)
+		out := "returned"
+		if e := resultError(res); e != nil {
+			for i := len(errOf) - 1; i >= 0; i-- {
+				if c := errOf[i](e); c != "" {
+					out = "rejected " + c
+					break
+				}
+			}
+		}
+		if t[0] == "sel" {
+			out = strings.Replace(strings.Replace(out, "outer:", "", 1), "inner:", "", 1)
+		}
+		return run{out, asked, len(b.Calls)}
+	}
+	both, outer, inner := do(t[5], t[6]), do(t[5], ""), do("", t[6])
+	if both.out == "bad-op" {
+		return "bad-op"
+	}
+	if strings.HasPrefix(outer.out, "rejected") {
+		if both.out != outer.out || both.innerAsked != 0 || both.backendHits != 0 {
+			return fmt.Sprintf("nested-differs: outer alone {%s}; stacked {%s inner-policy-consulted=%d backend-calls=%d}", outer.out, both.out, both.innerAsked, both.backendHits)
+		}
+		return "nested ok: " + both.out
+	}
+	innerOut := inner.out
+	if t[0] != "sel" {
+		innerOut = strings.Replace(innerOut, "rejected ", "rejected ", 1)
+	}
+	if both.out != innerOut || both.backendHits != inner.backendHits {
+		return fmt.Sprintf("nested-differs: inner alone {%s backend-calls=%d}; stacked {%s backend-calls=%d}", inner.out, inner.backendHits, both.out, both.backendHits)
+	}
+	return "nested ok: " + both.out
+}
+
 func c12Line(l string, insts map[string]*c12Inst) string {
 	t := strings.Split(l, " ")
+	if len(t) == 7 && (t[0] == "ac" || t[0] == "sel") && t[1] == "nest" {
+		return c12Nest(t)
+	}
 	if len(t) != 6 || (t[0] != "ac" && t[0] != "sel") {
 		return "bad-op"
 	}
@@ -418,6 +531,28 @@ func (*c12) Gen(rng *RNG, tier string) []Case {
 		}
 		cases = append(cases, Case{Tag: "reuse", Lines: lines})
 	}
+	// two wrappers stacked: every method, every outer/inner assignment over the two repositories
+	for _, m := range methods {
+		if m == "Repositories" {
+			continue
+		}
+		for mask := 0; mask < 1<<4; mask++ {
+			cells := []string{a + ".r", a + ".w", b + ".r", b + ".w"}
+			if m == "DeleteBlob" || m == "DeleteManifest" || m == "DeleteTag" {
+				cells = []string{a + ".d", a + ".r", b + ".d", b + ".w"}
+			} else if m == "Tags" || m == "Referrers" {
+				cells = []string{a + ".l", a + ".r", b + ".l", b + ".r"}
+			}
+			for imask := 0; imask < 1<<4; imask += 3 {
+				cases = append(cases, Case{Tag: "nested", Lines: []string{fmt.Sprintf("ac nest %s %s %s %s %s", m, a, b, joinOrDash(subsetOf(cells, mask)), joinOrDash(subsetOf(cells, imask)))}})
+			}
+		}
+		for mask := 0; mask < 1<<2; mask++ {
+			for imask := 0; imask < 1<<2; imask++ {
+				cases = append(cases, Case{Tag: "nested", Lines: []string{fmt.Sprintf("sel nest %s %s %s %s %s", m, a, b, joinOrDash(subsetOf([]string{a, b}, mask)), joinOrDash(subsetOf([]string{a, b}, imask)))}})
+			}
+		}
+	}
 	// malformed lines
 	for _, l := range []string{"ac call NoSuchMethod x61 x62 -", "ac call GetBlob zz x62 -", "ac call Repositories x61 x62 -",
 		"sel list x61 -1 - -", "ac list x61 1 x61,?? -", "ac frob x x x x", "sel call GetBlob x61"} {
@@ -440,11 +575,19 @@ func (*c12) Oracle(c Case, impl []string) []Failure {
 		if got == "bad-op" && c.Tag == "malformed" {
 			continue
 		}
-		if len(t) != 6 {
-			continue
-		}
 		fail := func(class, oracle, exp string) {
 			fs = append(fs, Failure{Class: class, Oracle: oracle, Index: i, Expected: exp, Observed: got, Detail: "panic value: " + lastPanic})
+		}
+		if len(t) == 7 && t[1] == "nest" {
+			if got == "panic" {
+				fail("c12-panic:nest", "no_panic", "a result")
+			} else if !strings.HasPrefix(got, "nested ok: ") {
+				fail("c12-nested-differs:"+t[2], "stacked_wrappers_compose", "the outer wrapper's rejection (inner policy not consulted), else the inner wrapper's behaviour")
+			}
+			continue
+		}
+		if len(t) != 6 {
+			continue
 		}
 		if got == "panic" {
 			fail("c12-panic:"+t[1], "no_panic", "a result")
